@@ -321,13 +321,13 @@ def r3(cx):
     cx.note("decision region %s: %d paths, %d rows" % (info["region_start"], info["paths"], info["rows"]))
     cx.table("compaction per-version decision", [[str(dict(sorted(c.items()))), str(o)] for c, o, _ in rows])
     cp.check_obligation(cx, rows, "a live version that an open snapshot reads and that is not superseded inside its visibility boundary is written to the output",
-                        lambda t: (not t["hard_delete"]) and t["cur_vis"] == "Bounded" and not cp.superseded(t), True,
+                        lambda t: (not t["hard_delete"]) and t["cur_vis"] == "Bounded" and not cp.unneeded_by_snapshots(t), True,
                         "snapshot-version-dropped",
                         "compaction drops a version that is the one an open snapshot reads (no newer version in the same visibility boundary): the reader loses its value "
                         "(all failing combinations have `latest version is a hard delete at the bottom level`, which discards every version of the key before snapshots are consulted)",
                         info["region_start"])
     cp.check_obligation(cx, rows, "a tombstone that an open snapshot reads (not superseded in its boundary, not the bottom-level drop-all case) is written to the output",
-                        lambda t: t["hard_delete"] and not t["latest_del_bottom"] and t["cur_vis"] == "Bounded" and not cp.superseded(t) and (not t["is_latest"] or not t["bottom"]), True,
+                        lambda t: t["hard_delete"] and not t["latest_del_bottom"] and t["cur_vis"] == "Bounded" and not cp.unneeded_by_snapshots(t) and (not t["is_latest"] or not t["bottom"]), True,
                         "snapshot-tombstone-dropped",
                         "compaction drops a hard-delete tombstone that is the version an open snapshot reads: that reader then finds an older value of the deleted key",
                         info["region_start"])
